@@ -128,6 +128,7 @@ func cmdCheck(args []string) int {
 	fs := flag.NewFlagSet("check", flag.ExitOnError)
 	tier := fs.String("tier", os.Getenv("VERIF_TIER"), "quick|thorough")
 	overlay := fs.String("overlay", "", "mutant overlay json (self-test only)")
+	patch := fs.String("patch", "", "unified diff (relative to the repo root) analysed as an in-memory overlay; /repo is not modified (self-test only)")
 	noEv := fs.Bool("no-evidence", false, "do not write evidence (self-test only)")
 	only := fs.String("only", "", "restrict the verdict to one obligation key (replay)")
 	fs.Parse(args)
@@ -151,7 +152,7 @@ func cmdCheck(args []string) int {
 			fmt.Fprintf(os.Stderr, "no rules for %s\n", id)
 			return 2
 		}
-		if len(r.Patterns) == 0 || (*tier == "thorough" && *overlay == "") {
+		if len(r.Patterns) == 0 || (*tier == "thorough" && *overlay == "" && *patch == "") {
 			pats = map[string]bool{"./...": true}
 			break
 		}
@@ -174,6 +175,15 @@ func cmdCheck(args []string) int {
 			return 3
 		}
 		cfg.Overlay = ov
+	}
+	if *patch != "" {
+		ov, err := patchOverlay(*patch)
+		if err != nil {
+			fmt.Println("patch:", err)
+			return 3
+		}
+		cfg.Overlay = ov
+		*noEv = true
 	}
 	prog, err := load.Load(cfg)
 	if err != nil {
@@ -230,7 +240,7 @@ func cmdCheck(args []string) int {
 			defer os.RemoveAll(dir)
 		}
 		extra := map[string]any{}
-		if *tier == "thorough" && *overlay == "" && *only == "" {
+		if *tier == "thorough" && *overlay == "" && *patch == "" && *only == "" {
 			extra["mutants"] = runMutants(id)
 		}
 		if e := k.Finish(dir, *tier, seed, loadWall+time.Since(t1).Seconds(), known, extra); e > rc {
